@@ -129,6 +129,21 @@ def check_case(R, case, channels):
                 bad("route '%s'" % name, {"grid_index": k, "t": repr(ts[k]), "expected": base[k], "observed": vals[k]})
             elif len(m3.memo["s"]) != cells:
                 bad("route '%s' created extra memo cells" % name, {"expected": cells, "observed": len(m3.memo["s"])})
+        # 6. cold, top-down evaluation: the first evaluation on an empty memo is at a late grid point, so every earlier
+        #    time is reached by the stock's own t - dt recursion; the value must be the one the bottom-up run reports
+        m4 = build_model(start, stop, dt)
+        s4 = m4.stocks["s"]
+        for k in sorted({n, n // 2, (2 * n) // 3, min(n, 10), min(n, 5), min(n, 3)}):
+            m4.reset_cache()
+            v = s4(exp[k])
+            R.add("routes_compared")
+            if abs(v - base[k]) > 1e-12:
+                bad("cold top-down evaluation", {"grid_index": k, "t": repr(exp[k]), "expected": base[k], "observed": v})
+                break
+            off = [t for t in m4.memo["s"] if t not in exp]
+            if off:
+                bad("cold top-down evaluation memoised times off the grid", {"grid_index": k, "t": repr(exp[k]), "off_grid_keys": [repr(t) for t in off[:5]]})
+                break
     finally:
         b.destroy()
 
